@@ -338,6 +338,14 @@ impl PhoneticSuggestion {
             .map(String::as_str)
             .or_else(|| data.search_corrected(term))
     }
+
+    /// Verification hook: sorted keys of the dictionary search cache.
+    #[cfg(feature = "verif")]
+    pub(crate) fn verif_cache_keys(&self) -> Vec<&str> {
+        let mut keys: Vec<&str> = self.cache.keys().map(String::as_str).collect();
+        keys.sort_unstable();
+        keys
+    }
 }
 
 // Implement Default trait on PhoneticSuggestion, actually for testing convenience.
